@@ -145,6 +145,19 @@ def children_alive() -> List[int]:
 
 
 def evaluate(c: Dict[str, Any]) -> Tuple[List[Any], Dict[str, Any]]:
+    # The fixed ports of a case are probed free and then released before the proxy binds them: another process on the machine
+    # can take one in between (seen once, under heavy load).  EADDRINUSE on a port this harness chose says nothing about the
+    # proxy: the case is re-run with freshly probed ports, and counted as inconclusive if that keeps happening.
+    for attempt in range(4):
+        out, info = _evaluate_once(c)
+        busy = [v for v in out if v[0] == 'setup-raised' and 'Address already in use' in str(v[2])]
+        if not busy:
+            return out, info
+    info['inconclusive'] = True
+    return [v for v in out if v not in busy], info
+
+
+def _evaluate_once(c: Dict[str, Any]) -> Tuple[List[Any], Dict[str, Any]]:
     from proxy import Proxy
     tmp = tempfile.mkdtemp(prefix='vf-c19-')
     hosts = [c['hostname']] + [h for h in c['hostnames'] if h != c['hostname']]
